@@ -255,5 +255,7 @@ class RefDC:
         else:
             entry["denied"] = "access"
             return E_ACCESSDENIED, None
+        if "envelope_override" in self.byz:  # boundary values a misbehaving (or future) server could put in the fields
+            env = dict(env, **self.byz["envelope_override"])
         entry["envelope_fields"] = env
         return 0, gkdi.pack_envelope(env)
